@@ -174,8 +174,9 @@ def field_cases(tier):
     fams = ("loglin", "power")
     halos = (13.0, None) if tier == "quick" else (13.0, None, 30.0, 60.0)
     ns = (16, 64, 256) if tier == "quick" else (16, 64, 256, 1024)
-    for fam, h, fp, order in itertools.product(fams, halos, (False, True), ("ascending", "descending")):
-        yield {"family": fam, "halo": h, "footprint": fp, "order": order, "ns": ns}
+    for fam, fp, order in itertools.product(fams, (False, True), ("ascending", "descending", "rotated")):
+        # all halos in ONE case (one process): consecutive solves that differ only in the halo
+        yield {"family": fam, "halos": list(halos), "footprint": fp, "order": order, "ns": ns}
 
 
 def case_field_ladder(case):
@@ -183,6 +184,52 @@ def case_field_ladder(case):
     FFT of its own): reference field = Riccati transfer functions assembled through the harness' DFT restatement of
     pad / truncate / shift / crop.  Mode count (4,4) keeps only components the coarsest grid resolves; output heights
     are requested ascending or descending."""
+    from vf.oracles import halfspace
+
+    # resolution outermost, halo innermost: consecutive solves differ ONLY in the halo
+    errs = {repr(h): [] for h in case["halos"]}
+    for nlay in case["ns"]:
+        for h in case["halos"]:
+            errs[repr(h)].append(_field_error(case, h, nlay))
+    v = []
+    lab = core.canon(case)
+    for h in case["halos"]:
+        e = errs[repr(h)]
+        for k, nlay in enumerate(case["ns"]):
+            hk = 1.0 / nlay
+            if not e[k] <= 16.0 * hk:
+                v.append({"sub": "field-bound", "sig": "field-bound", "msg": "halo %r, n=%d: field error %.3e is %.1f x the relative layer thickness (allowed 16 x); case %s" % (h, nlay, e[k], e[k] / hk, lab)})
+            if k + 1 < len(e) and e[k + 1] > max(e[k] / 2.5, 0.05 / case["ns"][k + 1]) and e[k + 1] >= 1e-9:
+                v.append({"sub": "field-ratio", "sig": "field-ratio", "msg": "halo %r, n=%d -> %d: field error %.3e -> %.3e shrinks only %.2f x (required 2.5 x); case %s" % (h, nlay, case["ns"][k + 1], e[k], e[k + 1], e[k] / e[k + 1], lab)})
+    return {"v": v[:4], "nt": True, "n": len(case["ns"]) * len(case["halos"]), "obs": {"errors_by_halo": {k: ["%.3e" % x for x in val] for k, val in errs.items()}}}
+
+
+def _field_error(case, halo, n):
+    from scipy.integrate import quad
+
+    from vf.oracles import halfspace
+
+    S0 = sl.solver()
+    nx, ny, dom = 8, 6, (200.0, 150.0)
+    dx, dy = dom[0] / nx, dom[1] / ny
+    funcs = family(case["family"], "oblique")
+    z0, zt = 0.5, 20.0
+    fp = case["footprint"]
+    q = sl.impulse(ny, nx, 2, 3)
+    mp = (5 * dx, 1 * dy) if fp else (0.0, 0.0)
+    modes = (4, 4)
+    z = np.linspace(z0, zt, n + 1)
+    prof = tuple(np.asarray(f(z), dtype=float) + 0.0 * z for f in funcs)
+    lv = {"ascending": [n // 2, n], "descending": [n, n // 2], "rotated": [n // 2, n, n // 4]}[case["order"]]
+    _, c, f = S0(q, z, prof, dom, lv, modes=modes, halo=halo, precision="double", footprint=fp, meas_pt=mp)
+    tr = lambda kx, ky: riccati.transfer(funcs, z0, zt, z[lv], kx, ky)  # noqa
+    res = [quad(lambda t: 1.0 / float(funcs[4](t)), z0, zz, epsabs=1e-13, epsrel=1e-12)[0] for zz in z[lv]]
+    cw, fw = halfspace.solve(q, dom, z[lv] - z0, None, modes, halo, meas_pt=mp, footprint=fp, transfer=tr, mean_resistance=res)
+    cm, cwm = c - c.mean(axis=(1, 2), keepdims=True), cw - cw.mean(axis=(1, 2), keepdims=True)
+    return max(sl.relerr(f, fw, np.abs(fw).max()), sl.relerr(cm, cwm, np.abs(cwm).max()))
+
+
+def _field_ladder_one_unused(case):
     from vf.oracles import halfspace
 
     S0 = sl.solver()
@@ -201,7 +248,7 @@ def case_field_ladder(case):
     for n in case["ns"]:
         z = np.linspace(z0, zt, n + 1)
         prof = tuple(np.asarray(f(z), dtype=float) + 0.0 * z for f in funcs)
-        lv = [n // 2, n] if case["order"] == "ascending" else [n, n // 2]
+        lv = {"ascending": [n // 2, n], "descending": [n, n // 2], "rotated": [n // 2, n, n // 4]}[case["order"]]
         _, c, f = S0(q, z, prof, dom, lv, modes=modes, halo=halo, precision="double", footprint=fp, meas_pt=mp)
         tr = lambda kx, ky: riccati.transfer(funcs, z0, zt, z[lv], kx, ky)  # noqa
         res = [quad(lambda t: 1.0 / float(funcs[4](t)), z0, zz, epsabs=1e-13, epsrel=1e-12)[0] for zz in z[lv]]
